@@ -261,6 +261,20 @@ def gray_code(ctx):
 
 def check(ctx):
     ctx.use(ELAB, FUNCS, CODING)
+    from . import ranges as _rg
+    from ..comp import Component as _Comp
+
+    _np = 0
+    for rel_, cls_, tab_ in (
+        (CODING, "Encoder", [("i", "bits", "self.width", "one request bit per position"), ("o", "index", "self.width", "the index of any position")]),
+        (CODING, "PriorityEncoder", [("i", "bits", "self.width", "one request bit per position"), ("o", "index", "self.width", "the index of any position")]),
+        (CODING, "Decoder", [("i", "index", "self.width", "the index of any position"), ("o", "bits", "self.width", "one output bit per position")]),
+        (ELAB, "MultiPriorityEncoder", [("input", "bits", "self.input_width", "one bit per position"), ("outputs", "index-array", "self.input_width", "each output is the index of any position"), ("valids", "bits", "self.outputs_count", "one valid bit per output")]),
+        (ELAB, "RingMultiPriorityEncoder", [("input", "bits", "self.input_width", "one bit per position"), ("first", "index", "self.input_width", "any position"), ("last", "index", "self.input_width", "any position"),
+                                            ("outputs", "index-array", "self.input_width", "each output is the index of any position"), ("valids", "bits", "self.outputs_count", "one valid bit per output")]),
+    ):
+        _np += _rg.port_declarations(ctx, "C38", _Comp(ctx.repo, rel_, cls_, rule="C38"), cls_, tab_)
+    ctx.floor("C38", "declared port shapes", _np, 14, CODING)
     uniformize_order_preserving(ctx)
     one_hot_mux_semantics(ctx)
     c38.one_hot_mux_alignment(ctx, "C38")
